@@ -1,2 +1,15 @@
 #!/bin/sh
-exit 0
+# Builds the fact-extractor driver and warms the dependency caches (offline).
+set -e
+cd "$(dirname "$0")"
+export CARGO_NET_OFFLINE=true
+(cd driver && cargo +nightly build --release --offline 2>&1 | tail -2)
+mkdir -p build evidence/violations
+python3 - <<'PY'
+import sys
+sys.path.insert(0, "analysis")
+import extract
+print("facts:", extract.extract(config="dev"))
+print("fixtures:", extract.extract_fixtures())
+PY
+echo "setup ok"
